@@ -23,26 +23,26 @@ NA = {
 CHECKS = {
  "C07": dict(
    category="exploration",
-   text="Seeded search over the only schedule this library has - the iteration order of every std HashMap/HashSet, owned by the simulator through an interposed getrandom - crossed with thread history, concurrent compiles interleaved at include-load boundaries, heap layout, stack size and (sample) a second process. Every scenario (repository shaders, generated container-filling programs, generated include graphs, faulted variants, snippets of the repository's tests; accepted and rejected; all targets and options) is executed 6 (quick) / 16 (thorough) times and all outcomes - bytes, metadata, stages, pipeline state, diagnostics, panics - must be identical. Exploration is the right level: the space of hash keys is 2^128 per thread and only sampling is possible; probes measure that the order-sensitive containers really held >= 2 elements in >= 2 orders.",
-   note="Trusted: the getrandom interposition (self-checked every run), the outcome serialisation (Debug of the public result types). Not reached: nondeterminism that needs an input shape none of the workloads produce. The load-request order is logged but deliberately not part of the oracle (the statement does not promise it).",
-   technique="deterministic simulation: seeded hash-order schedules (getrandom seam) x thread history x baton-scheduled concurrent compiles, outcome equality across executions",
+   text="Seeded search over the only schedule this library has - the iteration order of every std HashMap/HashSet, owned by the simulator through an interposed getrandom - crossed with thread history, concurrent compiles interleaved at include-load boundaries, heap layout, stack size, a simulated wall clock (interposed clock_gettime: every execution has its own epoch and every read jumps by more than a second), a simulated process environment (fourteen variables set or removed per execution) and (sample) a second process. Every scenario (repository shaders, generated container-filling programs and each of their error tails alone, generated include graphs, faulted variants, snippets of the repository's tests; accepted and rejected; all targets and options incl. source_info) is executed 6 (quick) / 16 (thorough) times and all outcomes - bytes, metadata, stages, pipeline state, diagnostics, panics - must be identical. Exploration is the right level: the space of hash keys is 2^128 per thread and only sampling is possible; probes measure that the order-sensitive containers really held >= 2 elements in >= 2 orders.",
+   note="Trusted: the getrandom and clock_gettime interpositions (self-checked every run), the outcome serialisation (Debug of the public result types). Not reached: nondeterminism that needs an input shape none of the workloads produce. The load-request order is logged but deliberately not part of the oracle (the statement does not promise it).",
+   technique="deterministic simulation: seeded hash-order schedules (getrandom seam) x thread history x baton-scheduled concurrent compiles x simulated clock and environment, outcome equality across executions",
    design="4 C07"),
  "C08": dict(
    category="fault_enumeration",
-   text="Environment slice of totality, plus the baseline it rests on: every realistic source tree (repository shaders, generated include graphs) is compiled under every single storage/transport fault of the simulated file system - error at each load index, short read at every line end and mid-line, bit flips and lost/duplicated line windows on a fixed lattice, empty file, CRLF/BOM/NUL, twelve hostile real_names, stale second read, lost guards, inserted self-includes, include cycles - and combinations of up to three from a constant universe seed, on all four targets and option combinations, inside supervised worker processes so that panics, aborts, stack overflows and hangs are all observed; every token of every snippet of the repository's own tests is lost, duplicated or swapped; and 16 families of programs with a nesting / repetition parameter must need at most 8x more allocation events (deterministic logical time) per doubling. Outcome must be Ok or an Err that renders. The fault universes are finite and fixed by the tree; thorough enumerates them completely (about 750 000 runs), quick visits a seed-chosen residue class.",
+   text="Environment slice of totality, plus the baseline it rests on: every realistic source tree (repository shaders, generated include graphs) is compiled under every single storage/transport fault of the simulated file system - error at each load index, short read at every line end and mid-line, bit flips and lost/duplicated line windows on a fixed lattice, empty file, CRLF/BOM/NUL, twelve hostile real_names, stale second read, lost guards, inserted self-includes, include cycles - and combinations of up to three from a constant universe seed, on all four targets and option combinations, inside supervised worker processes so that panics, aborts, stack overflows and hangs are all observed; every token of every snippet of the repository's own tests is lost, duplicated or swapped; and 18 families of programs with a nesting / repetition parameter (among them self-referential macros under nested invocations) must need at most 8x more allocation events (deterministic logical time) per doubling. Outcome must be Ok or an Err that renders. The fault universes are finite and fixed by the tree; thorough enumerates them completely (about 690 000 runs), quick visits a seed-chosen residue class.",
    note="Arbitrary byte strings, token soups and grammar-derived programs are input fuzzing (another family) and are not generated, so a panic that needs syntax that no corpus file, snippet or generated program +- one fault contains is out of reach. Wall-clock time is only judged by the hang watchdog (120 s per unit); polynomial time is judged in allocation events. Open known findings are listed in known_findings.json and matched by file + innermost two functions of the panic backtrace + message prefix.",
    technique="deterministic simulation with fault injection at the IncludeHandler seam; supervised worker processes attribute aborts/stack overflows/hangs; logical-time (allocation event) scaling",
    design="4 C08"),
  "C12": dict(
    category="exploration",
-   text="Generated include graphs on a simulated directory tree (resolution policies, aliases, same name in two directories, #pragma once anywhere incl. inside conditional regions, guards, cycles, conditional regions spanning files, hundreds of repeated includes, load faults) carrying object-like and function-like macros (0-3 parameters, nested invocations, parenthesised arguments with commas, empty arguments, wrong arity, self reference, redefinition between kinds, #undef across files, the ## paste macro) are preprocessed by rssl and by an independent reference model of textual inclusion + C macro replacement that resolves through the same simulated file system; token streams must be equal (refinement), the handler's request history must be justified by the model (no invented request, no silently skipped first request, correct parent name, nothing after an error), compile() must accept exactly the pasted programs that are valid, and API-level defines must equal #define lines placed before the first line.",
-   note="The model answers 'unmodelled' (counted in evidence, never judged) where C and RSSL are known to differ or C leaves the result open: a replacement that ends in a function-like macro name followed by '(', an argument naming a macro that is being expanded around it, ## with macro-name operands, #elif after #else, stringification. Multi-line invocations and duplicate API-level define names are not generated. Plain (flat names) and hostile (aliases, faults) configurations are judged and reported separately.",
+   text="Generated include graphs on a simulated directory tree (resolution policies, aliases, same name in two directories, #pragma once anywhere incl. inside conditional regions, guards, cycles, conditional regions spanning files, hundreds of repeated includes, load faults) carrying object-like and function-like macros (0-3 parameters, nested invocations, parenthesised arguments with commas, empty arguments, wrong arity, self and mutual reference (also through arguments), bare function-like names as arguments, bodies made of parameters only, invocations spanning lines, redefinition between kinds, #undef across files, the ## paste macro incl. pastes of two literals and pastes that spell keywords) are preprocessed by rssl and by an independent reference model of textual inclusion + C macro replacement that resolves through the same simulated file system; token streams must be equal (refinement), the handler's request history must be justified by the model (no invented request, no silently skipped first request, correct parent name, nothing after an error), compile() must accept exactly the pasted programs that are valid, API-level defines must equal #define lines placed before the first line, and a whole generated program (functions, overloads, templates, resources, pipelines) must compile to the same sources and metadata as one file and cut at top-level line boundaries into files that include one another (with #pragma once parts included again).",
+   note="The model answers 'unmodelled' (counted in evidence, never judged) where C and RSSL are known to differ or C leaves the result open: the DR 268 cases around a replacement that ends in a function-like macro name followed by '(', a line break between such a name and '(', ## with macro-name operands, #elif after #else, stringification, arithmetic in #if. Duplicate API-level define names are not generated. Plain (flat names) and hostile (aliases, faults) configurations are judged and reported separately.",
    technique="deterministic simulation: compiler <-> include-handler protocol on a simulated file system with fault injection, refinement against an executable reference model of textual inclusion and macro replacement",
    design="4 C12"),
  "C14": dict(
    category="fault_enumeration",
-   text="The simulator plants a failure whose position it knows - a failed load at a known #include directive, a NUL byte or an unterminated comment at a known line, one of eight type-error gadgets (redefinitions and unknown names in several syntactic shapes) after a declaration the reference model says is emitted - in generated include graphs and in the repository's shader trees, then checks that the rendered diagnostic names that file, line (and column for gadgets), that inserting k in {1,2,7,50} trivia lines above the construct moves the line by exactly k with message, file and column unchanged, and that growing files loaded earlier leaves the diagnostic byte-identical. The file:line:col of every token of generated graphs (through macro bodies, command-line defines and ## scratch files) is compared with where the generator wrote it. Layout trivia: whole-tree CRLF translation and whitespace / comments / backslash splices inserted at token boundaries inside the lines of every file must not change the result.",
-   note="Diagnostics whose position the simulator did not cause are not judged (a failing #if condition is reported where its first token was written, possibly a macro body). Trivia is inserted in text lines only, never inside directive lines, strings, comments or multi-character operators, and never directly after < or >.",
+   text="The simulator plants a failure whose position it knows - a failed load at a known #include directive, a NUL byte or an unterminated comment at a known line, a byte order mark, one of twelve exact error gadgets (redefinitions, unknown names, parser errors, an ambiguous call whose notes must name the candidates - also across files) or of 42 calibrated ones (one per kind of typer error a few lines can provoke; the gadget alone says where and what, planted it must say the same there) after a declaration the reference model says is emitted - in generated include graphs and in the repository's shader trees, then checks that the rendered diagnostic names that file, line (and column for gadgets), that inserting k in {1,2,7,50} trivia lines above the construct moves the line by exactly k with message, file and column unchanged, and that growing files loaded earlier leaves the diagnostic byte-identical. The file:line:col of every token of generated graphs (through macro bodies, command-line defines and ## scratch files) is compared with where the generator wrote it. Layout trivia: whole-tree CRLF translation and whitespace / comments (also ones that look like delimiters or hold multi-byte characters) / backslash splices inserted at token boundaries inside the text and directive lines of every file must not change the result; a file read twice whose second read differs must give the result of one consistent world.",
+   note="Diagnostics whose position the simulator did not cause are not judged (a failing #if condition is reported where its first token was written, possibly a macro body). Trivia is never inserted inside strings, comments or multi-character operators, directly after < or >, between a macro's name and its parameter list, or in front of a directive's name; a bare line break only in front of , ) ; (and a variant in which such a break reaches the '(' of a function-like macro by substitution - where RSSL and C differ - is not judged). Calibrated gadgets cannot see a defect that is the same with and without includes.",
    technique="deterministic simulation with fault injection: planted load failures / corrupt bytes / error gadgets at known positions across include histories, metamorphic k-line shift, bystander growth and trivia insertion",
    design="4 C14"),
 }
